@@ -218,9 +218,13 @@ func (m *recoveryMessage) GetPrepareResponses(p dbft.ConsensusPayload[util.Uint2
 		return nil
 	}
 
-	ps := make([]dbft.ConsensusPayload[util.Uint256], len(m.preparationPayloads))
+	ps := make([]dbft.ConsensusPayload[util.Uint256], 0, len(m.preparationPayloads))
 
-	for i, resp := range m.preparationPayloads {
+	for _, resp := range m.preparationPayloads {
+		// The index is not checked by the decoder, a wrong one can't be verified anyway.
+		if int(resp.ValidatorIndex) >= len(validators) {
+			continue
+		}
 		r := fromPayload(prepareResponseType, p.(*Payload), &prepareResponse{
 			preparationHash: *m.preparationHash,
 		})
@@ -229,7 +233,7 @@ func (m *recoveryMessage) GetPrepareResponses(p dbft.ConsensusPayload[util.Uint2
 		r.Witness.InvocationScript = resp.InvocationScript
 		r.Witness.VerificationScript = getVerificationScript(resp.ValidatorIndex, validators)
 
-		ps[i] = r
+		ps = append(ps, r)
 	}
 
 	return ps
@@ -237,9 +241,12 @@ func (m *recoveryMessage) GetPrepareResponses(p dbft.ConsensusPayload[util.Uint2
 
 // GetChangeViews implements the payload.RecoveryMessage interface.
 func (m *recoveryMessage) GetChangeViews(p dbft.ConsensusPayload[util.Uint256], validators []dbft.PublicKey) []dbft.ConsensusPayload[util.Uint256] {
-	ps := make([]dbft.ConsensusPayload[util.Uint256], len(m.changeViewPayloads))
+	ps := make([]dbft.ConsensusPayload[util.Uint256], 0, len(m.changeViewPayloads))
 
-	for i, cv := range m.changeViewPayloads {
+	for _, cv := range m.changeViewPayloads {
+		if int(cv.ValidatorIndex) >= len(validators) {
+			continue
+		}
 		c := fromPayload(changeViewType, p.(*Payload), &changeView{
 			newViewNumber: cv.OriginalViewNumber + 1,
 			timestamp:     cv.Timestamp,
@@ -250,7 +257,7 @@ func (m *recoveryMessage) GetChangeViews(p dbft.ConsensusPayload[util.Uint256], 
 		c.Witness.InvocationScript = cv.InvocationScript
 		c.Witness.VerificationScript = getVerificationScript(cv.ValidatorIndex, validators)
 
-		ps[i] = c
+		ps = append(ps, c)
 	}
 
 	return ps
@@ -264,9 +271,12 @@ func (m *recoveryMessage) GetPreCommits(p dbft.ConsensusPayload[util.Uint256], v
 
 // GetCommits implements the payload.RecoveryMessage interface.
 func (m *recoveryMessage) GetCommits(p dbft.ConsensusPayload[util.Uint256], validators []dbft.PublicKey) []dbft.ConsensusPayload[util.Uint256] {
-	ps := make([]dbft.ConsensusPayload[util.Uint256], len(m.commitPayloads))
+	ps := make([]dbft.ConsensusPayload[util.Uint256], 0, len(m.commitPayloads))
 
-	for i, c := range m.commitPayloads {
+	for _, c := range m.commitPayloads {
+		if int(c.ValidatorIndex) >= len(validators) {
+			continue
+		}
 		cc := fromPayload(commitType, p.(*Payload), &commit{signature: c.Signature})
 		cc.message.ValidatorIndex = c.ValidatorIndex
 		cc.message.ViewNumber = c.ViewNumber
@@ -274,7 +284,7 @@ func (m *recoveryMessage) GetCommits(p dbft.ConsensusPayload[util.Uint256], vali
 		cc.Witness.InvocationScript = c.InvocationScript
 		cc.Witness.VerificationScript = getVerificationScript(c.ValidatorIndex, validators)
 
-		ps[i] = cc
+		ps = append(ps, cc)
 	}
 
 	return ps
